@@ -5,6 +5,7 @@ import (
 
 	openfgav1 "github.com/openfga/api/proto/openfga/v1"
 
+	"github.com/openfga/openfga/internal/verifhook"
 	"github.com/openfga/openfga/pkg/storage/cache/keys"
 	"github.com/openfga/openfga/pkg/tuple"
 )
@@ -106,6 +107,9 @@ func ReadStartingWithUserKey(store string, filter ReadStartingWithUserFilter) ke
 	builder.EncodeArray(a[:n])
 
 	digest := keys.GetDigest()
+	if verifhook.Enabled {
+		verifhook.Event("key.pre", "rswu", string(builder.Bytes()))
+	}
 	digest.Write(builder.Bytes())
 	suffix := digest.Sum64()
 	digest.Close()
@@ -169,6 +173,9 @@ func ReadUsersetTuplesKey(store string, filter ReadUsersetTuplesFilter) keys.Key
 	builder.EncodeArray(a[:n])
 
 	digest := keys.GetDigest()
+	if verifhook.Enabled {
+		verifhook.Event("key.pre", "rut", string(builder.Bytes()))
+	}
 	digest.Write(builder.Bytes())
 	suffix := digest.Sum64()
 	digest.Close()
@@ -195,6 +202,9 @@ func ReadKey(store string, filter ReadFilter) keys.Key {
 	builder.EncodeArray(a[:n])
 
 	digest := keys.GetDigest()
+	if verifhook.Enabled {
+		verifhook.Event("key.pre", "read", string(builder.Bytes()))
+	}
 	digest.Write(builder.Bytes())
 	suffix := digest.Sum64()
 	digest.Close()
